@@ -268,9 +268,31 @@ def execute(case, scratch):
             out.violation("the memento just stored is not found by a new backend object on the same directory", symptom="not-found-after-store")
         else:
             _compare(out, m1, m3, "store: ", content_key=False)
+    # ... and decoded by a process in which the module of the referenced functions is importable but not imported yet
+    if not out.violations and core.hash64("c11-elsewhere", core.canon(case)) % 5 == 0:
+        from vlib import proc
+        r = proc.forkrun(_decode_elsewhere, doc2, timeout=120)
+        refs1 = [m1.invocation_metadata.fn_reference_with_args] + list(m1.invocation_metadata.invocations)
+        if "exc" in r:
+            out.violation("decoding in a process that has not imported the functions' module raised %s: %s" % (r["exc"], r["msg"]),
+                          symptom="exception", path="other-process", exc=r["exc"], where=r["where"])
+        else:
+            want_views = [_rwa_view(x) for x in refs1]
+            want_ext = [bool(x.fn_reference.external) for x in refs1]
+            want_deps = sorted([list(_ref_view(f)) + [bool(f.external)] for f in m1.function_dependencies])
+            if r["views"] != want_views:
+                i = next(i for i, (a_, b_) in enumerate(zip(r["views"], want_views)) if a_ != b_)
+                k = next(k for k in want_views[i] if r["views"][i][k] != want_views[i][k])
+                out.violation("decoded in a process that has not imported the functions' module, reference %d has %s = %s; here it is %s" % (
+                    i, k, str(r["views"][i][k])[:200], str(want_views[i][k])[:200]), symptom="field-differs", field="elsewhere." + k)
+            elif r["external"] != want_ext or r["deps"] != want_deps:
+                out.violation("decoded in a process that has not imported the functions' module, resolvable references come back as external placeholders: %r (here %r)" % (
+                    r["external"], want_ext), symptom="resolvable-reference-decoded-as-external")
+        _elsewhere[0] += 1
     return _finish(out, case)
 
 
+_elsewhere = [0]
 _store_n = [0]
 
 
@@ -287,6 +309,28 @@ def _through_store(m1, scratch):
         return FilesystemStorageBackend(path=d).get_memento(m1.invocation_metadata.fn_reference_with_args.fn_reference_with_arg_hash())
     finally:
         shutil.rmtree(d, ignore_errors=True)
+
+
+def _decode_elsewhere(doc):
+    """forked child standing for another process that has the harness functions on its path but has not imported their
+    module yet: decode the document there and report what the references look like"""
+    import sys
+    import vlib
+    from twosigma.memento.serialization import MementoCodec
+    sys.modules.pop("vlib.afuncs", None)
+    if hasattr(vlib, "afuncs"):
+        delattr(vlib, "afuncs")
+    try:
+        m2 = MementoCodec.decode_memento(doc)
+        refs = [m2.invocation_metadata.fn_reference_with_args] + list(m2.invocation_metadata.invocations or [])
+        return {"views": [_rwa_view(r) for r in refs], "external": [bool(r.fn_reference.external) for r in refs],
+                "deps": sorted([list(_ref_view(f)) + [bool(f.external)] for f in m2.function_dependencies])}
+    except Exception as e:
+        import traceback
+        tb = traceback.extract_tb(e.__traceback__)
+        import os
+        where = next(("%s:%s" % (os.path.basename(fr.filename), fr.name) for fr in reversed(tb) if "twosigma" in fr.filename), "?")
+        return {"exc": type(e).__name__, "msg": str(e)[:300], "where": where}
 
 
 def _compare(out, m1, m2, pre, content_key=True):
@@ -391,6 +435,8 @@ def _finish(out, case):
         labs.append("external-reference-with-args")
     if '"t":"extfn"' in text:
         labs.append("unresolvable-function-as-argument")
+    if core.hash64("c11-elsewhere", text) % 5 == 0:
+        labs.append("also-decoded-in-a-process-without-the-module")
     out.labels = labs + ["rt:" + case["result_type"]]
     out.nontrivial = bool(labs)
     out.nt_key = [labs, re.sub(r'"v":"[^"]*"', '"v":_', text)[:4000]]
@@ -467,6 +513,9 @@ def strategy():
                     st.builds(lambda n, s: {"name": n, "steps": s}, st.sampled_from(["g1", "g2", "h1", "h2", "g7"]), st.just([])),
                     st.sampled_from(["c::gone.module:fn#3", "c::gone.module:fn#4", "vlib.afuncs:g1#0-old", "vlib.afuncs:g1#1-older", "pkg.m:f#1", "pkg.m:f#2"]).map(lambda q: {"ext": q}))
 
+    # resource urls as the library's own resource functions produce them (percent escapes, also escaped escapes)
+    URLS = st.sampled_from(["file:///data/a%20b.csv", "file:///data/q3%2520report.csv", "http://h/x?u=http%3A%2F%2Fz%2Fp%3Fa%3D1", "s3://b/100%25.parquet", "%41", "a%"])
+
     @st.composite
     def case(draw):
         t = draw(st.one_of(A.dt(), A.dt().map(lambda d: dict(d, tz=0))))
@@ -478,7 +527,7 @@ def strategy():
             "time": t,
             "call": draw(call()),
             "invocations": draw(st.lists(call(), max_size=5)),
-            "resources": draw(st.lists(st.tuples(printable, S.text, S.text).map(list), max_size=3)),
+            "resources": draw(st.lists(st.tuples(printable, st.one_of(S.text, URLS), S.text).map(list), max_size=3)),
             "deps": draw(st.lists(fnd, max_size=4)),
             "runtime_us": draw(st.one_of(st.integers(0, 10**12), st.sampled_from([0, 1, 999999, 10**12, 123 * 86400 * 10**6]))),
             "result_type": draw(st.sampled_from(RESULT_TYPES)),
